@@ -31,9 +31,14 @@ func TestVerifC16Lifecycle(t *testing.T) {
 
 func c16lifecycle(r *kernel.Run, strategy int) {
 	m := NewManager(StateActive)
-	ctx, cancel := context.WithCancel(context.Background())
-	defer cancel()
 	nwaiters := 1 + r.Choose(2)
+	ctxs := make([]context.Context, nwaiters)
+	cancels := make([]context.CancelFunc, nwaiters)
+	for i := range ctxs {
+		ctxs[i], cancels[i] = context.WithCancel(context.Background())
+		defer cancels[i]()
+	}
+	cancelTarget := r.Choose(nwaiters + 1)
 	nupd := 1 + r.Choose(3)
 	withCancel := r.Choose(4) == 3
 	withTask := r.Choose(3) == 2
@@ -44,6 +49,7 @@ func c16lifecycle(r *kernel.Run, strategy int) {
 	r.Logf("lifecycle: waiters=%d updates=%v cancel=%v task=%v strategy=%d", nwaiters, plan, withCancel, withTask, strategy)
 	s := sched.New(r.Choose, strategy, func(f string, a ...any) { r.Logf(f, a...); r.Step() })
 	var cancelled, updaterDone atomic.Bool
+	cancelledW := make([]atomic.Bool, nwaiters)
 	sources := make([]State, nwaiters)
 	results := make([]atomic.Int32, nwaiters) // 0 pending, 1 true, 2 false
 	for i := 0; i < nwaiters; i++ {
@@ -52,7 +58,7 @@ func c16lifecycle(r *kernel.Run, strategy int) {
 		useTask := withTask && i == 0
 		s.Go(fmt.Sprintf("waiter%d", i), func() {
 			if useTask {
-				tk, ok := m.TaskWaitForStateChange(ctx, sources[i])
+				tk, ok := m.TaskWaitForStateChange(ctxs[i], sources[i])
 				if ok {
 					tk.Done()
 					results[i].Store(1)
@@ -61,7 +67,7 @@ func c16lifecycle(r *kernel.Run, strategy int) {
 				}
 				return
 			}
-			if m.WaitForStateChange(ctx, sources[i]) {
+			if m.WaitForStateChange(ctxs[i], sources[i]) {
 				results[i].Store(1)
 			} else {
 				results[i].Store(2)
@@ -78,7 +84,15 @@ func c16lifecycle(r *kernel.Run, strategy int) {
 		s.Go("taskwaiter", func() { m.WaitForTasks() })
 	}
 	if withCancel {
-		s.Go("canceller", func() { cancelled.Store(true); cancel() })
+		s.Go("canceller", func() {
+			cancelled.Store(true)
+			for i := range cancels {
+				if cancelTarget == nwaiters || cancelTarget == i {
+					cancelledW[i].Store(true)
+					cancels[i]()
+				}
+			}
+		})
 	}
 	for s.Steps < 600 && s.Step() {
 	}
@@ -106,7 +120,7 @@ func c16lifecycle(r *kernel.Run, strategy int) {
 		r.Probe("waiter_blocked_at_end")
 		var wi int
 		fmt.Sscanf(t.Label, "waiter%d", &wi)
-		if cancelled.Load() {
+		if cancelledW[wi].Load() {
 			r.Violate("cancel", "cancelled-wait-blocked", "%s: context cancelled but the wait is still blocked in %s", t.Label, t.BlockedIn())
 		} else if updaterDone.Load() && m.currentState != sources[wi] {
 			r.Violate("missed-update", "waiter-blocked-with-stale-view", "%s waits for a change from state %d, is blocked in %s, but the current state is %d and the updater has finished",
@@ -127,11 +141,13 @@ func c16lifecycle(r *kernel.Run, strategy int) {
 				r.Violate("spurious", "wait-returned-without-change", "waiter%d returned true although the state never differed from %d", i, sources[i])
 			}
 		}
-		if results[i].Load() == 2 && !cancelled.Load() {
+		if results[i].Load() == 2 && !cancelledW[i].Load() {
 			r.Violate("cancel", "negative-result-without-cancel", "waiter%d returned false although its context was never cancelled", i)
 		}
 	}
-	cancel()
+	for _, c := range cancels {
+		c()
+	}
 	s.Abort()
 	r.Probe("lifecycle_run")
 }
